@@ -20,7 +20,7 @@ import (
 // ---- C19: Syncer.Head is fresh, monotone and never adopts an expired header ----
 
 type c19Step struct {
-	Op   string `json:"op"`             // sleep | head | heads | gossip | mode
+	Op   string `json:"op"`             // sleep | head | heads | gossip | mode | ranges (Mode: ok | fail - whether the getter serves range requests)
 	Ms   int    `json:"ms,omitempty"`   // sleep
 	N    int    `json:"n,omitempty"`    // heads: concurrent callers
 	Stag int    `json:"stag,omitempty"` // heads: callers start this many ms apart (all within the in-flight request)
@@ -66,6 +66,21 @@ func TestC19(t *testing.T) {
 					st := append([]c19Step{{Op: "mode", Mode: m}, {Op: "sleep", Ms: ms}, {Op: "start"}, {Op: "mode", Mode: "fresh"}, {Op: "sleep", Ms: 3500}}, tail...)
 					mon.Emit(r, "script", c19P{Empty: empty, Steps: st}, "script")
 				}
+			}
+		}
+	}
+	// the sync loop cannot fetch ranges for a while: the subjective head is a pending target ahead of the store
+	for _, ms := range []int{500, 3100, 10000} {
+		for _, m := range []string{"fresh", "same", "error"} {
+			for _, n := range []int{1, 4} {
+				hs := c19Step{Op: "head"}
+				if n > 1 {
+					hs = c19Step{Op: "heads", N: n}
+				}
+				st := []c19Step{{Op: "start"}, {Op: "ranges", Mode: "fail"}, {Op: "sleep", Ms: 10000}, {Op: "head"}, {Op: "mode", Mode: m}, {Op: "sleep", Ms: ms}, hs, {Op: "head"}, {Op: "ranges", Mode: "ok"}, {Op: "mode", Mode: "fresh"}, {Op: "sleep", Ms: 3100}, {Op: "head"}}
+				mon.Emit(r, "script", c19P{Steps: st}, "script")
+				st2 := []c19Step{{Op: "start"}, {Op: "ranges", Mode: "fail"}, {Op: "sleep", Ms: 5000}, {Op: "gossip"}, {Op: "mode", Mode: m}, {Op: "sleep", Ms: ms}, hs, {Op: "head"}}
+				mon.Emit(r, "script", c19P{Steps: st2}, "script")
 			}
 		}
 	}
@@ -193,7 +208,14 @@ func c19Run(c *mon.Case, p c19P) {
 		}
 		w.g.HeadBlock = func() bool { mmu.Lock(); defer mmu.Unlock(); return mode == "hang" }
 		// ranges are only served up to the current network tip
+		rangesFail := false
 		w.g.RangeFn = func(_ int, from H, to uint64) ([]H, error, bool) {
+			mmu.Lock()
+			rf := rangesFail
+			mmu.Unlock()
+			if rf {
+				return nil, c19Err, true
+			}
 			out := chain.Range(from.Height()+1, min(to, tipNow()+1))
 			if len(out) == 0 {
 				return nil, c19Err, true
@@ -382,6 +404,11 @@ func c19Run(c *mon.Case, p c19P) {
 				mmu.Lock()
 				mode = st.Mode
 				mmu.Unlock()
+			case "ranges":
+				mmu.Lock()
+				rangesFail = st.Mode == "fail"
+				mmu.Unlock()
+				classes = append(classes, "ranges:"+st.Mode)
 			case "start":
 				if !started {
 					observe(1, true)
